@@ -149,6 +149,50 @@ def intake(v, naija, q):
                               % (how, name, what, out[-400:], p.stderr.decode("utf-8", errors="replace")[-400:], e.get("stdout", "")[-400:]),
                               {"case": name, "how": how, "source_bytes": len(src.encode()), "rc": p.returncode, "library_st": e["st"], "errors": nerr,
                                "source_head": src[:80], "binary_stdout_tail": out[-2000:]})
+    # SourceIntake's short reads: the same script delivered to stdin in SEVERAL writes with pauses (a producer that writes
+    # in pieces) is the same script - cut between statements, inside a token, inside a multi-byte character
+    import time as _t
+    multi = "shout(1)\nshout(2)\nmake s get \"na\u00efve \u20a6\"\nshout(s)\nshout(3)\n"
+    mb = multi.encode()
+    cuts = [mb.index(b"shout(2)"), mb.index(b"shout(2)") + 3, mb.index("\u20a6".encode()) + 1, len(mb) - 1]
+    exp_multi = lib_expect([multi], "<stdin>")[0]
+    with tempfile.TemporaryDirectory(prefix="c14m_", dir=os.path.join(common.VERIF, "work")) as td:
+        for cut in cuts:
+            pr = subprocess.Popen([naija, "-"], cwd=td, stdin=subprocess.PIPE, stdout=subprocess.PIPE, stderr=subprocess.PIPE)
+            try:
+                pr.stdin.write(mb[:cut])
+                pr.stdin.flush()
+                _t.sleep(0.4)
+                pr.stdin.write(mb[cut:])
+                pr.stdin.close()
+            except (BrokenPipeError, OSError):
+                pass          # the reader went away early: judged by what it printed
+            out = pr.stdout.read().decode("utf-8", errors="replace")
+            rc = pr.wait(timeout=60)
+            runs += 1
+            if out == exp_multi.get("stdout", "") and rc == 0:
+                agree += 1
+            else:
+                v.finding("intake:stdin:two-writes:cut%d" % cuts.index(cut), "a script delivered to `naija -` in two writes (cut at byte %d) is not run as the same script: exit %s, stdout %r, expected %r"
+                          % (cut, rc, out[-200:], exp_multi.get("stdout", "")[-200:]), {"case": "two-writes", "cut": cut, "rc": rc, "binary_stdout_tail": out[-2000:]})
+    # the same failing script reported several times by separate processes: byte-identical every time (diagnostic order
+    # must not depend on per-process state such as a hash seed)
+    for name, src in (("dup-params", "do join(left, right, left, right, up, down, up, down) start\n return 1\nend\nshout(join(1, 2, 3, 4, 5, 6, 7, 8))\n"),
+                      ("many-undeclared", "".join("shout(q%d add r%d)\n" % (i, i) for i in range(12))),
+                      ("dup-functions", "".join("do f%d() start end\ndo f%d() start end\n" % (i, i) for i in range(6)) + "shout(1)\n")):
+        e = lib_expect([src], "t.ns")[0]
+        outs = set()
+        with tempfile.TemporaryDirectory(prefix="c14r_", dir=os.path.join(common.VERIF, "work")) as td:
+            with open(os.path.join(td, "t.ns"), "w") as f:
+                f.write(src)
+            for _ in range(8):
+                p = subprocess.run([naija, "t.ns"], cwd=td, capture_output=True, timeout=60)
+                outs.add(p.stdout)
+                runs += 1
+        if len(outs) != 1 or next(iter(outs)).decode("utf-8", errors="replace") != e.get("stdout", ""):
+            v.finding("repeat:" + name, "8 separate runs of one failing script print %d different outputs (or differ from the library rendering)" % len(outs), {"case": name, "source_head": src[:200]})
+        else:
+            agree += 8
     wrap = sorted(c for c in counts_seen if c and c % 256 == 0)
     if not wrap and not v.findings:
         # (only a tool error when nothing else was found: a tree that miscounts errors must get its violations reported)
